@@ -41,9 +41,16 @@ def val_json(v):
 
 
 def flatten_decls(decls, out):
+    n0 = len(out)
+    _flatten(decls, out)
+    return out
+
+
+def _flatten(decls, out):
     for d in decls:
         k = d["d"]
         L = d.get("_line", 0)
+        mark = len(out)
         if k == "proto":
             out.append({"d": "proto", "name": d["name"], "line": L})
         elif k == "import":
@@ -56,25 +63,55 @@ def flatten_decls(decls, out):
             out.append({"d": "alias", "name": d["name"], "t": te_json(d["t"]), "line": L})
         elif k == "message":
             out.append({"d": "openMsg", "name": d["name"], "ext": bool(d["ext"]), "line": L})
-            flatten_decls(d["body"], out)
+            out[mark]["style"] = d.get("style", "unclear")
+            _flatten(d["body"], out)
             out.append({"d": "closeMsg", "line": d.get("_eline", 0)})
+            mark = len(out) - 1
         elif k == "field":
             out.append({"d": "field", "name": d["name"], "num": d["num"], "t": te_json(d["t"]), "line": L})
         elif k == "enum":
             out.append({"d": "openEnum", "name": d["name"], "n": d["n"], "line": L})
-            flatten_decls(d["body"], out)
+            out[mark]["style"] = d.get("style", "unclear")
+            _flatten(d["body"], out)
             out.append({"d": "closeEnum", "line": d.get("_eline", 0)})
+            mark = len(out) - 1
         elif k == "efield":
             out.append({"d": "efield", "name": d["name"], "bits": bits_of(d["value"]), "line": L})
         else:
             raise ValueError(k)
+        out[mark].setdefault("style", d.get("style", "unclear"))
     return out
+
+
+def layout_of(text):
+    """Layout tokens of every line: ["s", n] blanks, ["w", n] a word of n characters."""
+    lines = []
+    for line in text.split("\n"):
+        toks, i = [], 0
+        while i < len(line):
+            j = i
+            if line[i] == " ":
+                while j < len(line) and line[j] == " ":
+                    j += 1
+                toks.append(["s", j - i])
+            else:
+                while j < len(line) and line[j] != " ":
+                    j += 1
+                toks.append(["w", j - i])
+            i = j
+        lines.append(toks)
+    return lines
 
 
 def spec_program(prog, trad=False):
     """Program JSON for CompilerTrace (call after the text was rendered: lines are known)."""
     names = list(prog["files"].keys())
     files = [{"name": n, "decls": flatten_decls(prog["files"][n], [])} for n in names]
+    for f in files:
+        txt = prog.get("_texts", {}).get(f["name"])
+        if txt is not None:
+            f["layout"] = layout_of(txt)
+            f["indent_ok"] = bool(prog.get("_indent_ok", True))
     return {"files": files, "main": names.index(prog["main"]) + 1, "trad": bool(trad)}
 
 
